@@ -148,7 +148,7 @@ CHECKS = {
         text="For every transform and every flow/distribution configuration (<=1 / <=2 deviations), in eval and in training mode, a fixed-weight scalar of the outputs and log-dets (log_probs) is "
         "back-propagated to every trainable parameter, the inputs and the context; back-propagation must succeed, gradients must be finite, every parameter with a non-zero finite-difference "
         "derivative must receive a gradient, each gradient must equal the central finite difference of the real forward, and the parameter objects present before the first call must still be the module's parameters afterwards.",
-        note="rows are generic interior points, one coordinate exactly 0; coordinates where two step sizes disagree or the one-sided slopes differ by a step-independent amount (kinks) are skipped and counted; UMNN judged with its quadrature tolerance; at most 160 parameter scalars per case (deterministic stride)",
+        note="rows are generic interior points, one coordinate exactly 0; the MADE mixture also with one component logit at -800; coordinates where two step sizes disagree or the one-sided slopes differ by a step-independent amount (kinks) are skipped and counted; UMNN judged with its quadrature tolerance; at most 160 parameter scalars per case (deterministic stride)",
         ref="DESIGN.md 4/C16",
     ),
     "C17": dict(
